@@ -1115,15 +1115,19 @@ Section Top.
     apply Hn. rewrite Hp. reflexivity.
   Qed.
 
-  Definition early_report (txs : list tx) (gs : list (list (tx * Qc))) (c : offence) (ds : list delta) : Prop :=
+  (* the over-sale reported early: the ledger stopped at the loss sale [i],
+     whose 30-day look-ahead met the over-selling sale [k]; the first
+     impossible transaction [j] of the history lies in between *)
+  Definition early_report (init : option status) (txs : list tx) (j : nat) (c : offence)
+             (ds : list delta) : Prop :=
     exists i k ti tk,
       nth_error txs i = Some ti /\ nth_error txs k = Some tk /\
-      (i <= length gs <= k)%nat /\ (i < k)%nat /\
+      (i <= j <= k)%nat /\ (i < k)%nat /\
       is_sell (t_act ti) = true /\ is_sell (t_act tk) = true /\
       (t_sd tk <= t_sd ti + 30)%Z /\
-      effective ds = concat (firstn i gs) /\
-      (length gs = k -> c = OverSale) /\
-      (forall tj, nth_error txs (length gs) = Some tj -> (t_sd tj <= t_sd ti + 30)%Z).
+      effective ds = rows_before init txs i /\
+      (j = k -> c = OverSale) /\
+      (forall tj, nth_error txs j = Some tj -> (t_sd tj <= t_sd ti + 30)%Z).
 
   Theorem rejection_matches_offence init txs ds o :
     run exact init txs = (ds, o) ->
@@ -1134,14 +1138,13 @@ Section Top.
     | Some (j, c) =>
         exists r, o = Some (SRej r) /\ listed r /\
           ((class_of r = Some c /\ effective ds = possible_rows init txs) \/
-           (is_ahead r /\ j = length (fst (walk (spec_init init) [] txs)) /\
-            early_report txs (fst (walk (spec_init init) [] txs)) c ds))
+           (is_ahead r /\ early_report init txs j c ds))
     end.
   Proof.
     intros H Hi HR HV Hs Hn.
     pose proof (no_panic_from_eff_cent _ _ _ _ H Hi HR HV Hn) as Hnp.
     pose proof (run_agrees _ _ _ _ H Hi HR HV Hs Hnp) as Ha.
-    unfold first_offence, possible_rows.
+    unfold first_offence, possible_rows, early_report, rows_before.
     destruct (walk (spec_init init) [] txs) as [gs off]. cbn [fst snd] in *.
     unfold agrees in Ha. destruct off as [c|]; cbn [option_map].
     - destruct Ha as (r & -> & Hcases). exists r. split; [reflexivity|].
@@ -1149,7 +1152,7 @@ Section Top.
       { eapply (run_rej_listed regof regof_default init txs ds r H); [|exact HR].
         intros i E. destruct (Hi i E) as (A & B & _). split; assumption. }
       split; [exact Hl|]. destruct Hcases as [Hc | (Hah & Hw)]; [left; exact Hc | right].
-      split; [exact Hah|]. split; [reflexivity|].
+      split; [exact Hah|].
       destruct Hw as (i & k & ti & tk & N1 & N2 & Hik & Hlt & S1 & S2 & Hsd & He & Hov).
       exists i, k, ti, tk. repeat split; try assumption; try lia.
       intros tj Hj. eapply Z.le_trans; [|exact Hsd]. eapply (sorted_nth txs Hs); eauto. lia.
